@@ -3,7 +3,9 @@
 //
 // Drives the real loader of /repo: a generated workflow template (nesting <= 5; aggregator,
 // iterator — `for: {range, var}` and `for: {begin, end, var}` —, task and call roles; `enabled`
-// expressions and variable references across levels; template errors injected in every stage) is
+// expressions and variable references across levels; template errors injected in every stage;
+// 15% nested-iterator templates: a chain of 2-3 iterators each inside the template of the one
+// before, the inner begin / end / range expressions referring to the outer iteration variables) is
 // rendered as YAML, unmarshalled into a role tree under a ParentAdapter holding the
 // environment's defaults / vars / user vars and processed by ProcessTemplates (hook
 // workflow.VerifC15Load = Load minus repository manager and task-class refresh) with a stub
@@ -61,6 +63,10 @@ type forIn struct {
 	End   texpr  `json:"end,omitempty"`
 	BE    bool   `json:"be,omitempty"` // begin/end form
 	Var   string `json:"var"`
+
+	num  bool     // generator hint: every element is a small decimal number
+	max  int      // generator hint: largest element when num
+	vals []string // generator hint: some of the elements (for comparisons in `enabled`)
 }
 
 type chanIn struct {
@@ -550,6 +556,7 @@ func runCase(in *input, kind string) gen.Case {
 
 var keyPool = []string{"x", "y", "det", "n", "lst", "on", "w", "q"}
 var iterVars = []string{"it", "k", "x", "det"} // the last two collide with environment keys on purpose
+var nestVars = []string{"it", "k", "j", "o"}   // nested-iterator templates: mostly free of collisions
 var valPool = []string{"a", "b", "true", "false", "1", "TPC", "", "2", "a"}
 var listVals = []string{`["p","q"]`, `[]`, `["s"]`, `[ "u" , "v","w" ]`, `["a","a"]`}
 var litPool = []string{"r", "flp", "-", "n", "A b", "x_1", "0", "tcp://h:1", "stf", ""}
@@ -585,6 +592,29 @@ type gctx struct {
 	hit    bool
 	listK  []string // environment keys holding JSON lists
 	numK   []string // environment keys holding numbers
+
+	nest  bool        // nested-iterator template: a chain of 2-3 iterators is forced below the root
+	iters []*iterInfo // enclosing iterators of the role being generated, outermost first
+}
+
+// iterInfo: an enclosing iterator as seen from the roles of its template
+type iterInfo struct {
+	v        string   // iteration variable
+	num      bool     // its values are small decimal numbers
+	max      int      // the largest of them
+	vals     []string // some of its values
+	numAlias string   // a variable of the copy holding the value ("" = none)
+	lstAlias string   // a variable of the copy holding a JSON list built from the value
+}
+
+// ropt: what the caller of roleOpt forces
+type ropt struct {
+	mustAgg bool   // the root
+	kind    string // "" = random
+	isFor   int    // 0 random, 1 iterator, -1 plain role
+	chain   int    // > 0: one of the children carries a chain of that many nested iterators
+	onChain bool   // the role is part of the forced chain (keep it enabled most of the time)
+	noWrap  bool   // the chain child is not wrapped into a plain aggregator again
 }
 
 // ref picks a defined key (or, rarely in fault mode, an undefined one)
@@ -593,7 +623,27 @@ func (g *gctx) ref(sc scope) string {
 	if len(ks) == 0 {
 		return ""
 	}
+	if len(g.iters) > 0 && g.nest && g.r.Chance(1, 2) {
+		it := g.iters[g.r.Intn(len(g.iters))]
+		switch {
+		case it.numAlias != "" && sc[it.numAlias] && g.r.Chance(1, 4):
+			return it.numAlias
+		case sc[it.v]:
+			return it.v
+		}
+	}
 	return ks[g.r.Intn(len(ks))]
+}
+
+// cmpVal: a literal to compare the variable k with (a value the variable takes, when k is an
+// enclosing iteration variable)
+func (g *gctx) cmpVal(k string) string {
+	for _, it := range g.iters {
+		if (it.v == k || it.numAlias == k) && len(it.vals) > 0 && g.r.Chance(3, 4) {
+			return g.r.Pick(it.vals)
+		}
+	}
+	return g.r.Pick(valPool)
 }
 
 // maybeFault: called once per generated field of class cls; returns a faulty expression when this
@@ -638,7 +688,7 @@ func (g *gctx) valueExpr(sc scope) texpr {
 	}
 }
 
-func (g *gctx) enabledExpr(sc scope, forRole bool) *texpr {
+func (g *gctx) enabledExpr(sc scope, forRole, onChain bool) *texpr {
 	r := g.r
 	if t, ok := g.maybeFault("enabled", sc); ok {
 		return &t
@@ -647,6 +697,15 @@ func (g *gctx) enabledExpr(sc scope, forRole bool) *texpr {
 	nonLit := 30
 	if forRole {
 		nonLit = 12
+	}
+	if onChain { // an iterator with a non-literal `enabled` vanishes (C15-b): keep the chain mostly alive
+		nonLit = 12
+		if forRole {
+			nonLit = 4
+		}
+		if p >= nonLit && p < nonLit+12 && r.Chance(3, 4) {
+			return nil
+		}
 	}
 	switch {
 	case p < nonLit:
@@ -659,9 +718,9 @@ func (g *gctx) enabledExpr(sc scope, forRole bool) *texpr {
 		case 0:
 			t = texpr{pvar(k)}
 		case 1:
-			t = texpr{piece{Ne: &[2]string{k, r.Pick(valPool)}}}
+			t = texpr{piece{Ne: &[2]string{k, g.cmpVal(k)}}}
 		default:
-			t = texpr{piece{Eq: &[2]string{k, r.Pick(valPool)}}}
+			t = texpr{piece{Eq: &[2]string{k, g.cmpVal(k)}}}
 		}
 		return &t
 	case p < nonLit+12:
@@ -711,9 +770,138 @@ func keysOf(fs []field) []string {
 	return ks
 }
 
-func (g *gctx) forSpec(sc scope) *forIn {
+func seqVals(b, e int) []string {
+	var out []string
+	for i := b; i <= e && len(out) < 6; i++ {
+		out = append(out, fmt.Sprint(i))
+	}
+	return out
+}
+
+func listElems(js string) []string {
+	var out []string
+	_ = json.Unmarshal([]byte(js), &out)
+	return out
+}
+
+var numLists = []string{`["1","2","3"]`, `["3","1","2"]`, `["2","1"]`, `["2","2"]`, `["1","3"]`, `["3","2","1"]`, `[ "2" ]`}
+
+// numericFor: a range of small numbers (an enclosing iterator whose variable the ranges of the
+// iterators inside its template can count up to), or a short list of words
+func (g *gctx) numericFor(f *forIn) {
 	r := g.r
-	f := &forIn{Var: r.Pick(iterVars)}
+	switch r.Intn(5) {
+	case 0, 1:
+		b := r.Range(0, 1)
+		e := b + r.Range(0, 2)
+		f.BE, f.Begin, f.End = true, tl(fmt.Sprint(b)), tl(fmt.Sprint(e))
+		f.num, f.max, f.vals = true, e, seqVals(b, e)
+	case 2, 3:
+		l := r.Pick(numLists)
+		f.Range = tl(l)
+		f.vals = listElems(l)
+		f.num, f.max = true, 3
+	default:
+		l := r.Pick([]string{`["p","q"]`, `[ "u" , "v","w" ]`, `["a","a"]`, `["q","p","q"]`})
+		f.Range = tl(l)
+		f.vals = listElems(l)
+	}
+}
+
+// dependentFor: a range whose begin / end / range expression refers to the iteration variable of
+// an enclosing iterator (or to a variable that the enclosing copy derives from it), so that
+// every copy of the enclosing template has to evaluate it in its own scope.
+func (g *gctx) dependentFor(f *forIn, sc scope) bool {
+	r := g.r
+	o := g.iters[len(g.iters)-1]
+	if len(g.iters) > 1 && r.Chance(1, 3) {
+		o = g.iters[r.Intn(len(g.iters))]
+	}
+	if !sc[o.v] {
+		return false
+	}
+	ref := texpr{pvar(o.v)}
+	if o.numAlias != "" && sc[o.numAlias] && r.Chance(1, 3) {
+		ref = texpr{pvar(o.numAlias)}
+	}
+	var p *iterInfo // a second enclosing iterator
+	if len(g.iters) > 1 {
+		p = g.iters[r.Intn(len(g.iters))]
+		if !sc[p.v] {
+			p = nil
+		}
+	}
+	first := func(vs []string, d string) string {
+		if len(vs) > 0 {
+			return vs[0]
+		}
+		return d
+	}
+	c := r.Intn(12)
+	if c < 5 && !o.num && !r.Chance(1, 10) { // begin/end over words fails: keep that rare
+		c = 5 + r.Intn(6)
+	}
+	switch c {
+	case 0, 1, 2:
+		f.BE, f.Begin, f.End = true, tl("1"), ref
+		f.num, f.max, f.vals = true, o.max, []string{"1"}
+	case 3:
+		e := o.max + r.Range(0, 1)
+		f.BE, f.Begin, f.End = true, ref, tl(fmt.Sprint(e))
+		f.num, f.max, f.vals = true, e, []string{fmt.Sprint(e)}
+	case 4:
+		if p != nil && p.num {
+			f.BE, f.Begin, f.End = true, texpr{pvar(p.v)}, ref
+			f.num, f.max, f.vals = true, o.max, []string{fmt.Sprint(o.max)}
+		} else {
+			f.BE, f.Begin, f.End = true, tl("0"), append(texpr{lit("0")}, ref...)
+			f.num, f.max, f.vals = true, o.max, []string{"0", "1"}
+		}
+	case 5, 6:
+		pre := r.Pick([]string{"u", "", "e-"})
+		f.Range = append(append(texpr{lit(`["` + pre)}, ref...), lit(`","z"]`))
+		f.vals = []string{pre + first(o.vals, "1"), "z"}
+	case 7:
+		f.Range = append(append(texpr{lit(`["`)}, ref...), lit(`"]`))
+		f.vals = []string{first(o.vals, "1")}
+		f.num, f.max = o.num, o.max
+	case 8:
+		q := o
+		if p != nil {
+			q = p
+		}
+		f.Range = texpr{lit(`[ "`), pvar(q.v), lit(`" , "`), pvar(o.v), lit(`x"]`)}
+		f.vals = []string{first(q.vals, "1")}
+	case 9:
+		if o.lstAlias != "" && sc[o.lstAlias] {
+			f.Range = texpr{pvar(o.lstAlias)}
+			f.vals = []string{first(o.vals, "1"), "k"}
+			break
+		}
+		f.Range = append(append(texpr{lit(`["a","b`)}, ref...), lit(`"]`))
+		f.vals = []string{"a"}
+	case 10:
+		f.BE, f.Begin, f.End = true, append(texpr{lit("+")}, ref...), tl("3")
+		f.num, f.max, f.vals = true, 3, []string{"3"}
+	default:
+		if p != nil && p.num && o.num {
+			f.BE, f.Begin, f.End = true, tl("1"), texpr{pvar(p.v)}
+			f.num, f.max, f.vals = true, p.max, []string{"1"}
+		} else {
+			f.BE, f.Begin, f.End = true, tl("2"), ref
+			f.num, f.max, f.vals = true, o.max, []string{"2"}
+		}
+	}
+	return true
+}
+
+func (g *gctx) forSpec(sc scope, onChain bool) *forIn {
+	r := g.r
+	vars := iterVars
+	if g.nest && !r.Chance(1, 6) {
+		vars = nestVars
+	}
+	f := &forIn{Var: r.Pick(vars)}
 	if t, ok := g.maybeFault("range", sc); ok {
 		if r.Chance(1, 2) {
 			f.Range = t
@@ -739,9 +927,24 @@ func (g *gctx) forSpec(sc scope) *forIn {
 			return f
 		}
 	}
+	if len(g.iters) > 0 {
+		dep := 1
+		if g.nest {
+			dep = 3
+		}
+		if r.Chance(dep, 4) && g.dependentFor(f, sc) {
+			return f
+		}
+	}
+	if g.nest && (onChain || len(g.iters) > 0) && r.Chance(3, 4) {
+		g.numericFor(f)
+		return f
+	}
 	switch r.Intn(10) {
 	case 0, 1, 2, 3:
-		f.Range = tl(r.Pick(listVals))
+		l := r.Pick(listVals)
+		f.Range = tl(l)
+		f.vals = listElems(l)
 	case 4:
 		if len(g.listK) > 0 {
 			k := g.listK[r.Intn(len(g.listK))]
@@ -751,6 +954,7 @@ func (g *gctx) forSpec(sc scope) *forIn {
 			}
 		}
 		f.Range = tl(`["m"]`)
+		f.vals = []string{"m"}
 	case 5:
 		f.Range = tl(r.Pick([]string{`[]`, ` [ ] `, `null`}))
 	case 6, 7, 8:
@@ -758,9 +962,12 @@ func (g *gctx) forSpec(sc scope) *forIn {
 		b := r.Range(-1, 2)
 		e := b + r.Range(-1, 2)
 		f.Begin, f.End = tl(fmt.Sprint(b)), tl(fmt.Sprint(e))
+		f.num, f.max, f.vals = true, e, seqVals(b, e)
 		if r.Chance(1, 5) {
-			f.Begin = tl("+" + fmt.Sprint(r.Range(0, 1)))
-			f.End = tl("0" + fmt.Sprint(r.Range(1, 2)))
+			b, e = r.Range(0, 1), r.Range(1, 2)
+			f.Begin = tl("+" + fmt.Sprint(b))
+			f.End = tl("0" + fmt.Sprint(e))
+			f.num, f.max, f.vals = true, e, seqVals(b, e)
 		}
 	default:
 		f.BE = true
@@ -770,17 +977,38 @@ func (g *gctx) forSpec(sc scope) *forIn {
 		} else {
 			f.End = tl("2")
 		}
+		f.num, f.max, f.vals = true, 3, []string{"1", "2"}
 	}
 	return f
 }
 
 func (g *gctx) role(depth int, sc scope, mustAgg bool) *roleIn {
+	return g.roleOpt(depth, sc, ropt{mustAgg: mustAgg})
+}
+
+// chainKid: the child that carries the forced chain of `levels` nested iterators; one time in
+// three it is wrapped into a plain aggregator first (iterator inside aggregator inside iterator:
+// the same iterator template is then copied with the aggregator by the enclosing iterator).
+func (g *gctx) chainKid(depth int, sc scope, levels int, noWrap bool) *roleIn {
+	switch {
+	case !noWrap && g.r.Chance(1, 3):
+		return g.roleOpt(depth, sc, ropt{kind: "agg", isFor: -1, chain: levels, onChain: true, noWrap: true})
+	case levels <= 1:
+		return g.roleOpt(depth, sc, ropt{isFor: 1, onChain: true})
+	}
+	return g.roleOpt(depth, sc, ropt{kind: "agg", isFor: 1, chain: levels - 1, onChain: true})
+}
+
+func (g *gctx) roleOpt(depth int, sc scope, o ropt) *roleIn {
 	r := g.r
+	mustAgg := o.mustAgg
 	g.budget--
 	ro := &roleIn{}
 	// kind
 	p := r.Intn(100)
 	switch {
+	case o.kind != "":
+		ro.Kind = o.kind
 	case mustAgg || (p < 30 && depth < 5 && g.budget > 1):
 		ro.Kind = "agg"
 	case p < 78:
@@ -788,16 +1016,41 @@ func (g *gctx) role(depth int, sc scope, mustAgg bool) *roleIn {
 	default:
 		ro.Kind = "call"
 	}
-	isFor := !mustAgg && r.Chance(1, 4)
-	local := sc
-	if isFor {
-		ro.For = g.forSpec(sc)
-		local = sc.with(ro.For.Var)
+	forDen := 4
+	if g.nest && len(g.iters) > 0 { // more iterators inside the templates of iterators
+		forDen = 2
 	}
-	ro.Enabled = g.enabledExpr(local, isFor)
+	isFor := !mustAgg && r.Chance(1, forDen)
+	switch o.isFor {
+	case 1:
+		isFor = true
+	case -1:
+		isFor = false
+	}
+	local := sc
+	var self *iterInfo
+	if isFor {
+		ro.For = g.forSpec(sc, o.onChain)
+		local = sc.with(ro.For.Var)
+		self = &iterInfo{v: ro.For.Var, num: ro.For.num, max: ro.For.max, vals: ro.For.vals}
+		g.iters = append(g.iters, self)
+		defer func() { g.iters = g.iters[:len(g.iters)-1] }()
+	}
+	ro.Enabled = g.enabledExpr(local, isFor, o.onChain)
 	ro.Defaults = g.mapFields("defaults", local, nil)
 	sc2 := local.with(keysOf(ro.Defaults)...)
 	ro.Vars = g.mapFields("vars", sc2, nil)
+	if self != nil && g.nest && ro.Kind == "agg" {
+		// variables of the copy derived from the iteration variable: ranges further down use them
+		if r.Chance(1, 2) {
+			self.numAlias = fmt.Sprintf("m%d", depth)
+			ro.Vars = append(ro.Vars, field{self.numAlias, texpr{pvar(self.v)}})
+		}
+		if r.Chance(1, 3) {
+			self.lstAlias = fmt.Sprintf("l%d", depth)
+			ro.Vars = append(ro.Vars, field{self.lstAlias, texpr{lit(`["`), pvar(self.v), lit(`","k"]`)}})
+		}
+	}
 	sc3 := sc2.with(keysOf(ro.Vars)...)
 	// name
 	if t, ok := g.maybeFault("name", sc3); ok {
@@ -876,9 +1129,20 @@ func (g *gctx) role(depth int, sc scope, mustAgg bool) *roleIn {
 		if mustAgg {
 			n = r.Range(1, 4)
 		}
+		chainAt := -1
+		if o.chain > 0 {
+			chainAt = r.Intn(n)
+		}
 		for i := 0; i < n; i++ {
+			if i == chainAt {
+				ro.Kids = append(ro.Kids, g.chainKid(depth+1, sc3, o.chain, o.noWrap))
+				continue
+			}
 			if i > 0 && g.budget <= 0 {
-				break
+				if i > chainAt {
+					break
+				}
+				continue
 			}
 			ro.Kids = append(ro.Kids, g.role(depth+1, sc3, false))
 		}
@@ -951,15 +1215,41 @@ func genInput(r *gen.Rand, idx int) *input {
 	if sc["n"] {
 		g.numK = []string{"n"}
 	}
-	// fault plan: 62% clean, 38% one injected template error of a class cycling with the index
-	if r.Chance(38, 100) {
+	// 15% nested-iterator templates: below the root a chain of 2 or 3 iterators, each inside the
+	// template of the one before (directly or through a plain aggregator), the inner ranges
+	// referring to the outer iteration variables
+	chain := 0
+	if r.Chance(15, 100) {
+		g.nest = true
+		chain = r.Range(2, 3)
+		if g.budget < 6 {
+			g.budget = 6
+		}
+	}
+	// fault plan: 62% clean (75% of the nested ones), 38% one injected template error of a class
+	// cycling with the index
+	pf := 38
+	if g.nest {
+		pf = 25
+	}
+	if r.Chance(pf, 100) {
 		g.fkind = faultKinds[idx%len(faultKinds)]
 		g.fault = r.Range(1, 3)
+		if g.nest {
+			g.fault = r.Range(1, 6)
+		}
 		in.Note = "fault:" + g.fkind
 	}
-	in.Root = g.role(1, sc, true)
+	in.Root = g.roleOpt(1, sc, ropt{mustAgg: true, chain: chain, noWrap: true})
 	if g.fkind != "" && !g.hit {
 		in.Note += "(not placed)"
+	}
+	if g.nest {
+		if in.Note != "" {
+			in.Note = fmt.Sprintf("nested%d ", chain) + in.Note
+		} else {
+			in.Note = fmt.Sprintf("nested%d", chain)
+		}
 	}
 	return in
 }
@@ -1041,6 +1331,77 @@ func corpus() []*input {
 		Kids: []*roleIn{{Kind: "task", Name: texpr{lit("c"), pvar("it")}, Load: texpr{lit("l-"), pvar("w")}}}}
 	out = append(out, &input{D: map[string]string{"it": "d"}, V: map[string]string{"it": "v"}, U: map[string]string{"it": "u"}, Note: "iteration variable shadowing",
 		Root: &roleIn{Kind: "agg", Name: tl("r"), Kids: []*roleIn{sh}}})
+	return append(out, nestedCorpus()...)
+}
+
+// nestedCorpus: iterators inside the templates of iterators, the inner ranges (and `enabled`,
+// names, variables) depending on the outer iteration variables. Every copy that the outer
+// iterator makes of its template has to evaluate the inner range in its own scope.
+func nestedCorpus() []*input {
+	empty := func() map[string]string { return map[string]string{} }
+	root := func(note string, kids ...*roleIn) *input {
+		return &input{D: empty(), V: empty(), U: empty(), Note: note,
+			Root: &roleIn{Kind: "agg", Name: tl("root"), Kids: kids}}
+	}
+	be := func(v string, b, e texpr) *forIn { return &forIn{BE: true, Begin: b, End: e, Var: v} }
+	rg := func(v string, t texpr) *forIn { return &forIn{Range: t, Var: v} }
+	v := func(k string) texpr { return texpr{pvar(k)} }
+	nm := func(ps ...piece) texpr { return texpr(ps) }
+	tsk := func(name texpr, f *forIn) *roleIn { return &roleIn{Kind: "task", Name: name, Load: tl("c"), For: f} }
+	agg := func(name texpr, f *forIn, kids ...*roleIn) *roleIn {
+		return &roleIn{Kind: "agg", Name: name, For: f, Kids: kids}
+	}
+	var out []*input
+	// 1. begin/end form: host{{it}} for it in 1..3 [ worker{{jt}} for jt in 1..{{it}} ]
+	out = append(out, root("nested: inner end is the outer variable",
+		agg(nm(lit("host"), pvar("it")), be("it", tl("1"), tl("3")),
+			tsk(nm(lit("worker"), pvar("jt")), be("jt", tl("1"), v("it"))))))
+	// 2. the largest range first, inner begin is the outer variable
+	out = append(out, root("nested: inner begin is the outer variable, outer range unordered",
+		agg(nm(lit("h"), pvar("it")), rg("it", tl(`["3","1","2"]`)),
+			tsk(nm(lit("w"), pvar("it"), lit("_"), pvar("j")), be("j", v("it"), tl("3"))))))
+	// 3. range-expression form
+	out = append(out, root("nested: inner range expression built from the outer variable",
+		agg(nm(lit("h"), pvar("it")), rg("it", tl(`["a","b","c"]`)),
+			&roleIn{Kind: "call", Name: nm(lit("c-"), pvar("j")), Func: tl("f()"), Return: tl(""),
+				For: rg("j", texpr{lit(`["`), pvar("it"), lit(`1","`), pvar("it"), lit(`2"]`)})})))
+	// 4. three levels
+	out = append(out, root("nested: three levels",
+		agg(nm(lit("a"), pvar("a")), be("a", tl("1"), tl("2")),
+			agg(nm(lit("b"), pvar("b")), be("b", v("a"), tl("2")),
+				tsk(nm(lit("t"), pvar("a"), pvar("b"), pvar("c")), be("c", tl("1"), v("b"))),
+				tsk(nm(lit("u"), pvar("d")), rg("d", texpr{lit(`["`), pvar("a"), lit(`-`), pvar("b"), lit(`"]`)}))))))
+	// 5. iterator inside an aggregator inside an iterator, ranges over variables of the copy
+	h5 := agg(nm(lit("h"), pvar("it")), be("it", tl("1"), tl("3")),
+		agg(tl("g"), nil, tsk(nm(lit("w"), pvar("j")), be("j", tl("1"), v("m"))), task("fix")),
+		tsk(nm(lit("x"), pvar("j")), rg("j", v("l"))))
+	h5.Vars = []field{{"m", v("it")}, {"l", texpr{lit(`["`), pvar("it"), lit(`","k"]`)}}}
+	out = append(out, root("nested: iterator in aggregator in iterator, per-copy variables", h5, task("t2")))
+	// 6. the outer variable in `enabled`, name, vars and fields of the inner copies
+	in6 := agg(nm(lit("i"), pvar("j")), rg("j", tl(`["1","2"]`)), task("p"), task("q"))
+	in6.Vars = []field{{"w", texpr{pvar("it"), lit("-"), pvar("j")}}}
+	in6.Kids[0].Enabled = tptr(texpr{piece{Eq: &[2]string{"it", "p"}}})
+	in6.Kids[0].Load = texpr{lit("c-"), pvar("w")}
+	in6.Kids[1].Enabled = tptr(texpr{piece{Ne: &[2]string{"j", "2"}}})
+	in6.Kids[1].Name = nm(lit("q"), pvar("it"), pvar("j"))
+	in6.Kids[1].Constraints = []field{{"machine_id", texpr{pvar("it")}}}
+	out = append(out, root("nested: outer variable in inner enabled, name, vars",
+		agg(nm(lit("o"), pvar("it")), rg("it", tl(`["p","q"]`)), in6)))
+	// 7. inner iteration variable of the same name
+	out = append(out, root("nested: same variable name on both levels",
+		agg(nm(lit("h"), pvar("it")), be("it", tl("1"), tl("2")),
+			tsk(nm(lit("w"), pvar("it")), be("it", tl("1"), v("it"))))))
+	// 8. two iterators of one template, one of them empty for some copies, in a wrapping aggregator
+	out = append(out, root("nested: sibling inner iterators, empty for the first copy",
+		agg(nm(lit("h"), pvar("k")), be("k", tl("0"), tl("2")),
+			agg(tl("g"), nil,
+				tsk(nm(lit("a"), pvar("j")), be("j", tl("1"), v("k"))),
+				tsk(nm(lit("b"), pvar("j")), be("j", v("k"), tl("1"))))),
+		task("t2")))
+	// 9. a failing inner range for one copy only: the load fails
+	out = append(out, root("nested: inner range fails for one copy",
+		agg(nm(lit("h"), pvar("it")), rg("it", tl(`["1","x","2"]`)),
+			tsk(nm(lit("w"), pvar("j")), be("j", tl("1"), v("it"))))))
 	return out
 }
 
